@@ -65,6 +65,7 @@ def prop_C10(run):
 def prop_C18(run):
     import rules_tab, rules_det
     rules_tab.tab_cli(run)
+    rules_tab.tab_cli_escapes_gated(run)        # no escape sequence is written without asking use_colors
     # global options are honoured where they take effect: -d (COND define rules), -o (the file server really writes)
     import rules_cond, rules_mpt
     rules_cond.define_rules(run)
